@@ -15,6 +15,7 @@ REGISTRY = {
     'C10': ('vf.checks.c0910_check', lambda m: m.main('C10')),
     'C11': ('vf.checks.emis_check', lambda m: m.main('C11')),
     'C12': ('vf.checks.c12_check', lambda m: m.main()),
+    'C13': ('vf.checks.c13_check', lambda m: m.main()),
     'C14': ('vf.checks.c14_check', lambda m: m.main()),
     'C15': ('vf.checks.c15_check', lambda m: m.main()),
     'C16': ('vf.checks.c16_check', lambda m: m.main()),
